@@ -79,6 +79,11 @@ class Representer:
         # __sweeten() checks this, so can cast safely
         represented = cast(yaml.Node, cnode.yaml_node)
 
+        # If the object is referenced more than once, PyYAML reuses the node
+        # it remembered for it, so make that the sweetened one
+        if id(data) in dumper.represented_objects:
+            dumper.represented_objects[id(data)] = represented
+
         logger.debug('End representing {}'.format(data))
         return represented
 
@@ -201,6 +206,8 @@ class UserStringRepresenter:
                          ' check your _yatiml_sweeten() function.'
                          ).format(self.class_.__name__))
             represented = snode.yaml_node
+            if id(data) in dumper.represented_objects:
+                dumper.represented_objects[id(data)] = represented
 
         logger.debug('End representing {}'.format(data))
         return represented
